@@ -38,6 +38,13 @@ def run(chk, replay=None):
         while target and len(json.dumps(bulk)) < target:
             bulk['replicationSpecs'].append(spec); bulk['tags'].append({'key': 'team-%d' % len(bulk['tags']), 'value': 'value with \\ " and unicode \u00e9 ' * 3})
         cs = {'connectionStrings': {'standard': atlaslib.conn_string(hs, srv), 'standardSrv': 'mongodb+srv://x'}}
+        if wi % 3 == 1:   # the other members the Atlas API documents for this object (private endpoints / PrivateLink / VPC peering): arrays and objects, not only strings
+            cs['connectionStrings'].update({'private': 'mongodb://pl-0-us-east-1.x.mongodb.net:1024,pl-0-us-east-1.x.mongodb.net:1025/?ssl=true', 'privateSrv': 'mongodb+srv://c-pl-0.x.mongodb.net',
+                'privateEndpoint': [{'connectionString': 'mongodb://pl-0-us-east-1.x.mongodb.net:1024/?ssl=true', 'srvConnectionString': 'mongodb+srv://c-pl-0.x.mongodb.net', 'srvShardOptimizedConnectionString': None, 'type': 'MONGOD',
+                                     'endpoints': [{'endpointId': 'vpce-0123456789abcdef0', 'providerName': 'AWS', 'region': 'US_EAST_1'}]}],
+                'awsPrivateLink': {'vpce-0123456789abcdef0': 'mongodb://pl-0-us-east-1.x.mongodb.net:1024'}, 'awsPrivateLinkSrv': {'vpce-0123456789abcdef0': 'mongodb+srv://c-pl-0.x.mongodb.net'}})
+        elif wi % 3 == 2:
+            cs['connectionStrings'].update({'privateEndpoint': [], 'private': None, 'awsPrivateLink': {}})
         desc = dict(list({'name': 'C1x', 'clusterType': 'REPLICASET'}.items()) + (list(bulk.items()) + list(cs.items()) if wi % 2 == 0 else list(cs.items()) + list(bulk.items())) + [('stateName', 'IDLE')])
         chk._c16_sizes.append(len(json.dumps(desc)))
         chk.dist('cluster_description_over_4096_bytes', 1 if len(json.dumps(desc)) > 4096 else 0)
